@@ -60,6 +60,7 @@ fn eval_inner(req: &str) -> Case {
         "serde_legacy" => crate::misc::eval_serde_legacy(req, f[1], f[2], f[3]),
         "serde_semver" => crate::misc::eval_serde_semver(req, f[1].parse().unwrap(), f[2].parse().unwrap(), f[3].parse().unwrap()),
         "serde_provider" => crate::misc::eval_serde_provider(req, f[1], f[2], f[3].parse().unwrap()),
+        "weak" => crate::misc::eval_weak(req, f[1], f[2].parse().unwrap(), f[3] == "1"),
         "soak" => crate::misc::eval_soak(req, f[1].parse().unwrap(), f[2], f[3].parse().unwrap()),
         "det" => crate::misc::eval_det(req, f[1], f[2], f[3].parse().unwrap(), f[4]),
         "report" => crate::report::eval_report(f[1], f[2]),
